@@ -1332,3 +1332,122 @@ class RlRaggedArgmax(Family):
             yield case
         yield {"rows": [[3, 3, 0, 0, 3, 3, 3], [1, 2, 2]]}
         yield {"rows": [[0, 2, 1, 2], [5], [1, 1, 4, 4, 0, 4]]}
+
+
+@register
+class RlRaggedConcatenate(Family):
+    """np.concatenate of RunLengthRaggedArrays (rlra_concatenate, reached through RunLengthRaggedArray.__array_function__) against the contract of its
+    callee: the result's boundary array is the row concatenation of the operands' boundary arrays and its value array the row concatenation of the
+    operands' value arrays, both in operand order, along the rows.  With the contract of arrayfunctions.concatenate[axis=0] (C08: all rows of all
+    operands in order, cells unchanged) the lemma obligations give, for every result row R of operand i: boundaries and values are those of the same row
+    R - off(i) of the same operand, one boundary more than values, first boundary 0, boundaries strictly increasing - i.e. the result decodes to the
+    operands' decoded rows in order."""
+    name = "runlengtharray.rlra_concatenate"
+    qualname = "npstructures.runlengtharray:rlra_concatenate"
+    serves = ["C17"]
+    assumed = ["callee contract arrayfunctions.concatenate[axis=0] (rows of all operands in order; proved in C08's family of that name)",
+               "the operand list has 2 or 3 entries (unrolled; the function body is a pair of list comprehensions without loop-carried state)"]
+
+    def kinds(self):
+        return ["2", "3", "np.concatenate[2]", "np.concatenate[3]"]
+
+    def extra_functions(self):
+        return ["RunLengthRaggedArray.__array_function__", "RunLength2dArray.__init__"]
+
+    def run(self, ctx, kind):
+        import npstructures.runlengtharray as mod
+        from npstructures.runlengtharray import RunLengthRaggedArray
+        from ..sym.symnp import SymNumpy, SYMNP
+        from .specragged import SpecRagged
+        k = int(kind[-2]) if kind.endswith("]") and kind[-2].isdigit() else (2 if kind.endswith("]") else int(kind))
+        sts = [sym_rl_ragged(ctx, name=f"op{i}", kind="int") for i in range(k)]
+        objs = [st["obj"] for st in sts]
+        calls = []
+
+        class Cat:
+            def __init__(self, parts, axis):
+                self.parts, self.axis = parts, axis
+        real_cat = SymNumpy.__dict__["concatenate"]
+
+        def cat_stub(self_, arrays, *a, **kw):
+            arrays = list(arrays)
+            if arrays and all(isinstance(x, SpecRagged) for x in arrays):
+                axis = a[0] if a else kw.get("axis", 0)
+                calls.append((arrays, axis, {n: v for n, v in kw.items() if n != "axis"}))
+                return Cat(arrays, axis)
+            return real_cat(self_, arrays, *a, **kw)
+        SymNumpy.concatenate = cat_stub
+        try:
+            if kind.startswith("np.concatenate"):
+                out = objs[0].__array_function__(SYMNP.concatenate, (RunLengthRaggedArray,), (objs,), {})
+            else:
+                out = mod.rlra_concatenate(objs)
+        finally:
+            SymNumpy.concatenate = real_cat
+        ok = (isinstance(out, RunLengthRaggedArray) and type(out) is RunLengthRaggedArray and isinstance(out._indices, Cat) and isinstance(out._values, Cat))
+        ctx.prove("post.result is a RunLengthRaggedArray of two row concatenations", z3.BoolVal(ok))
+        if not ok:
+            return
+        ci, cv = out._indices, out._values
+        ctx.prove("post.boundaries: the operands' boundary arrays in operand order, along the rows",
+                  z3.BoolVal(len(ci.parts) == k and all(p is st["inds"] for p, st in zip(ci.parts, sts)) and ci.axis in (0, -2)))
+        ctx.prove("post.values: the operands' value arrays in the same order, along the rows",
+                  z3.BoolVal(len(cv.parts) == k and all(p is st["vals"] for p, st in zip(cv.parts, sts)) and cv.axis in (0, -2)))
+        ctx.prove("post.exactly two concatenations, no further arguments", z3.BoolVal(len(calls) == 2 and all(not c[2] for c in calls)))
+        ctx.prove("post.operands not modified", z3.BoolVal(all(st["inds"].writes == 0 and st["vals"].writes == 0 for st in sts)))
+        # lemma over the callee contract: result rows = operand rows in order, boundaries and values of the SAME operand row, well-formed
+        offs = [z3.IntVal(0)]
+        for st in sts:
+            offs.append(z3.simplify(offs[-1] + st["n"]))
+        N = offs[-1]
+
+        def pick(R, f):
+            e = None
+            for i in range(k - 1, -1, -1):
+                v = f(i, R - offs[i])
+                e = v if e is None else z3.If(R < offs[i + 1], v, e)
+            return e
+        ident = lambda parts, key: [next((j for j, st in enumerate(sts) if st[key] is p), -1) for p in parts]
+        order_i, order_v = ident(ci.parts, "inds"), ident(cv.parts, "vals")
+        if len(order_i) != k or len(order_v) != k or -1 in order_i or -1 in order_v:
+            return
+        # callee contract instantiated with the ACTUAL argument order of each call
+        Le = lambda R: pick(R, lambda i, r: sts[order_i[i]]["VL"](r) + 1)
+        Lv = lambda R: pick(R, lambda i, r: sts[order_v[i]]["VL"](r))
+        E = lambda R, c: pick(R, lambda i, r: sts[order_i[i]]["B"](r, c))
+        V = lambda R, c: pick(R, lambda i, r: sts[order_v[i]]["W"](r, c))
+        R, c = z3.Int("R"), z3.Int("c")
+        ctx.skolem(z3.And(0 <= R, R < N))
+        pool = [R, c, c + 1, z3.IntVal(0)] + [R - o for o in offs[:-1]]
+        ctx.prove("post.lemma: every result row has one boundary more than values, at least one run, first boundary 0",
+                  z3.And(Le(R) == Lv(R) + 1, Lv(R) >= 1, E(R, z3.IntVal(0)) == 0), pool=pool)
+        ctx.skolem(z3.And(0 <= c, c < Lv(R)))
+        ctx.prove("post.lemma: boundaries of every result row increase strictly", E(R, c) < E(R, c + 1), pool=pool)
+        for i in range(k):
+            ctx.prove(f"post.lemma: result row off({i}) + r is operand {i}'s row r: same runs, same boundaries, same values",
+                      z3.Implies(z3.And(offs[i] <= R, R < offs[i + 1]),
+                                 z3.And(Lv(R) == sts[i]["VL"](R - offs[i]), E(R, c) == sts[i]["B"](R - offs[i], c), E(R, c + 1) == sts[i]["B"](R - offs[i], c + 1),
+                                        V(R, c) == sts[i]["W"](R - offs[i], c))), pool=pool)
+
+    def concrete(self, case):
+        from npstructures import RaggedArray
+        from npstructures.runlengtharray import RunLengthRaggedArray
+        parts = case["parts"]
+        rrs = [RunLengthRaggedArray.from_ragged_array(RaggedArray(p)) for p in parts]
+        exp = [list(r) for p in parts for r in p]
+        try:
+            got = np.concatenate(rrs).to_array().tolist()
+        except Exception as e:
+            return {"msg": f"np.concatenate of run-length ragged arrays {parts} raised {type(e).__name__}: {e}", "sig": "raised:rlragged-concatenate"}
+        if got != exp:
+            return {"msg": f"np.concatenate of run-length ragged arrays {parts}: {got}, expected {exp}", "sig": "wrong:rlragged-concatenate"}
+
+    def concretise(self, kind, model, ghost):
+        return {"parts": [[[1, 1, 2], [2]], [[3, 3]], [[4], [4, 5, 5]]][:3 if "3" in kind else 2]}
+
+    def bounded_cases(self, tier, seed):
+        pool = [[[1, 1, 2], [2]], [[3, 3]], [[0], [0, 1, 1], [2, 2]], [[5, 5, 5, 6]]]
+        import itertools
+        for k in (2, 3):
+            for parts in itertools.permutations(pool, k):
+                yield {"parts": list(parts)}
